@@ -275,20 +275,20 @@ Lemma elapsed_secs_floor t s : 0 <= t - s < two32 * SECOND -> Z.of_N (elapsed_se
 Proof. unfold elapsed_secs, two32, SECOND. intros H. lia. Qed.
 
 (* ================================================================== the backend map *)
-Lemma find_remove k k' m : find k' (remove k m) = if (k =? k')%N then None else find k' m.
+Lemma find_remove k k' m : cp_find k' (cp_remove k m) = if (k =? k')%N then None else cp_find k' m.
 Proof.
-  induction m as [|[k0 e] m IH]; cbn [remove find].
+  induction m as [|[k0 e] m IH]; cbn [cp_remove cp_find].
   - now destruct (k =? k')%N.
   - destruct (k =? k0)%N eqn:E0.
     + apply N.eqb_eq in E0; subst k0. rewrite IH. destruct (k =? k')%N eqn:E; [reflexivity|].
       rewrite N.eqb_sym, E. reflexivity.
-    + cbn [find]. rewrite IH. destruct (k' =? k0)%N eqn:E1; [|reflexivity].
+    + cbn [cp_find]. rewrite IH. destruct (k' =? k0)%N eqn:E1; [|reflexivity].
       apply N.eqb_eq in E1; subst k0. now rewrite E0.
 Qed.
 
-Lemma find_put k e k' m : find k' (put k e m) = if (k' =? k)%N then Some e else find k' m.
+Lemma find_put k e k' m : cp_find k' (put k e m) = if (k' =? k)%N then Some e else cp_find k' m.
 Proof.
-  unfold put. cbn [find]. destruct (k' =? k)%N eqn:E; [reflexivity|].
+  unfold put. cbn [cp_find]. destruct (k' =? k)%N eqn:E; [reflexivity|].
   rewrite find_remove, N.eqb_sym, E. reflexivity.
 Qed.
 
@@ -316,7 +316,7 @@ Qed.
 
 (* negative responses are stored set-if-absent: an cp_entry that is present (live or not) is never displaced *)
 Lemma store_negative_keeps mx st t eps k m pk e :
-  negative m = true -> find k (st_map st) = Some e ->
+  negative m = true -> cp_find k (st_map st) = Some e ->
   exists o, cachectl_store mx st t eps k (Some m) pk = (st, o) /\
             (o = OSkipped \/ o = OKept (msg_lifetime mx m)).
 Proof.
@@ -329,14 +329,14 @@ Qed.
 Lemma store_writes mx st t eps k resp pk st' L :
   cachectl_store mx st t eps k resp pk = (st', OStored L) ->
   exists m, resp = Some m /\ h_tc (m_hdr m) = false /\ pk = true /\ L = msg_lifetime mx m /\
-    (negative m = true -> find k (st_map st) = None) /\
+    (negative m = true -> cp_find k (st_map st) = None) /\
     st' = mkState (st_clk st)
             (put k (mkEntry t (t + L) m (negative m) (otter_expiration (st_clk st) (t + L - (t + eps)))) (st_map st)).
 Proof.
   unfold cachectl_store. destruct resp as [m|]; [|discriminate].
   destruct (h_tc (m_hdr m)) eqn:Et; [discriminate|]. destruct pk; cbn [negb]; [|discriminate].
   unfold mem_store. destruct (negative m) eqn:En.
-  - destruct (find k (st_map st)) eqn:Ef; intros H; inversion H; subst.
+  - destruct (cp_find k (st_map st)) eqn:Ef; intros H; inversion H; subst.
     exists m. rewrite En. repeat split; auto.
   - intros H; inversion H; subst. exists m. rewrite En. repeat split; auto. discriminate.
 Qed.
@@ -344,10 +344,10 @@ Qed.
 (* a hit returns the stored message aged by the whole seconds elapsed since its stored time *)
 Lemma get_hit st t k st' m' s x :
   cachectl_get st t k = (st', OHit m' s x) ->
-  exists e, find k (st_map st) = Some e /\ has_expired (st_clk st) e = false /\ st' = st /\
+  exists e, cp_find k (st_map st) = Some e /\ has_expired (st_clk st) e = false /\ st' = st /\
             s = e_stored e /\ x = e_expire e /\ m' = subtract_ttl (elapsed_secs t s) (e_msg e).
 Proof.
-  unfold cachectl_get. destruct (find k (st_map st)) as [e|] eqn:Ef; [|discriminate].
+  unfold cachectl_get. destruct (cp_find k (st_map st)) as [e|] eqn:Ef; [|discriminate].
   destruct (has_expired (st_clk st) e) eqn:Ex; [discriminate|].
   intros H; inversion H; subst. exists e. repeat split; auto.
 Qed.
@@ -382,7 +382,7 @@ Definition entry_src (mx : Z) (hist : list event) (k : key) (e : cp_entry) : Pro
     e_msg e = m /\ h_tc (m_hdr m) = false /\ e_expire e = e_stored e + msg_lifetime mx m /\ e_neg e = negative m.
 
 Definition inv_src (mx : Z) (hist : list event) (st : cp_state) : Prop :=
-  forall k e, find k (st_map st) = Some e -> entry_src mx hist k e.
+  forall k e, cp_find k (st_map st) = Some e -> entry_src mx hist k e.
 
 Lemma entry_src_mono mx hist ev k e : entry_src mx hist k e -> entry_src mx (hist ++ [ev]) k e.
 Proof.
@@ -401,17 +401,17 @@ Proof.
       destruct (negb pk); [intros H; inversion H; auto|].
       destruct (mem_store _ _ _ _ _ _ _) as [st2 [|]] eqn:Em; intros H; inversion H; subst; eauto.
       revert Em. unfold mem_store. destruct (negative m); [|intros H'; inversion H'].
-      destruct (find k0 (st_map st)); intros H'; inversion H'; auto. }
+      destruct (cp_find k0 (st_map st)); intros H'; inversion H'; auto. }
     destruct Hcases as [->|(L & ->)]; [intros H; apply entry_src_mono, Hinv, H|].
     apply store_writes in Es. destruct Es as (m & -> & Ht & -> & -> & _ & ->). cbn [st_map].
     rewrite find_put. destruct (k =? k0)%N eqn:Ek.
     + apply N.eqb_eq in Ek; subst k0. intros H; inversion H; subst e; clear H.
       exists eps, m. cbn. split; [apply in_or_app; right; now left|auto].
     + intros H. apply entry_src_mono, Hinv, H.
-  - unfold cachectl_get. destruct (find k0 (st_map st)) as [e0|] eqn:Ef; cbn [fst].
+  - unfold cachectl_get. destruct (cp_find k0 (st_map st)) as [e0|] eqn:Ef; cbn [fst].
     + destruct (has_expired (st_clk st) e0); cbn [fst st_map]; intros H; apply entry_src_mono, Hinv, H.
     + intros H. apply entry_src_mono, Hinv, H.
-  - destruct (find k0 (st_map st)) as [e0|] eqn:Ef; cbn [fst]; [|intros H; apply entry_src_mono, Hinv, H].
+  - destruct (cp_find k0 (st_map st)) as [e0|] eqn:Ef; cbn [fst]; [|intros H; apply entry_src_mono, Hinv, H].
     destruct (has_expired (st_clk st) e0); cbn [fst st_map]; [|intros H; apply entry_src_mono, Hinv, H].
     rewrite find_remove. destruct (k0 =? k)%N; [discriminate|]. intros H. apply entry_src_mono, Hinv, H.
   - cbn [st_map]. rewrite find_remove. destruct (k0 =? k)%N; [discriminate|]. intros H. apply entry_src_mono, Hinv, H.
@@ -459,7 +459,7 @@ Qed.
 Definition entry_clk (e : cp_entry) : Prop :=
   SECOND <= e_expire e - e_stored e /\ Z.of_N (e_exp e) * SECOND <= e_expire e + SECOND - 1.
 
-Definition inv_clk (st : cp_state) : Prop := forall k e, find k (st_map st) = Some e -> entry_clk e.
+Definition inv_clk (st : cp_state) : Prop := forall k e, cp_find k (st_map st) = Some e -> entry_clk e.
 
 (* otter's rounding: clk + ceil((L - eps) / 1 s), no wrap, is at most (s + L)/1 s + 1 - 1 ns *)
 Lemma otter_expiration_bound clk L eps t mx :
@@ -489,7 +489,7 @@ Proof.
       destruct (negb pk); [intros H; inversion H; auto|].
       destruct (mem_store _ _ _ _ _ _ _) as [st2 [|]] eqn:Em; intros H; inversion H; subst; eauto.
       revert Em. unfold mem_store. destruct (negative m); [|intros H'; inversion H'].
-      destruct (find k0 (st_map st)); intros H'; inversion H'; auto. }
+      destruct (cp_find k0 (st_map st)); intros H'; inversion H'; auto. }
     destruct Hcases as [->|(L & ->)]; [apply Hinv|].
     apply store_writes in Es. destruct Es as (m & -> & Ht & -> & -> & _ & ->). cbn [st_map].
     rewrite find_put. destruct (k =? k0)%N eqn:Ek; [|apply Hinv].
@@ -497,9 +497,9 @@ Proof.
     destruct Hok as (He & Hc & Hw).
     pose proof (msg_lifetime_ge_1s mx m Hmx) as HL1. pose proof (msg_lifetime_le_max mx m) as HL2.
     split; [lia|]. apply (otter_expiration_bound (st_clk st) (msg_lifetime mx m) eps t mx); auto.
-  - unfold cachectl_get. destruct (find k0 (st_map st)) as [e0|] eqn:Ef; cbn [fst]; [|apply Hinv].
+  - unfold cachectl_get. destruct (cp_find k0 (st_map st)) as [e0|] eqn:Ef; cbn [fst]; [|apply Hinv].
     destruct (has_expired (st_clk st) e0); cbn [fst st_map]; apply Hinv.
-  - destruct (find k0 (st_map st)) as [e0|] eqn:Ef; cbn [fst]; [|apply Hinv].
+  - destruct (cp_find k0 (st_map st)) as [e0|] eqn:Ef; cbn [fst]; [|apply Hinv].
     destruct (has_expired (st_clk st) e0); cbn [fst st_map]; [|apply Hinv].
     rewrite find_remove. destruct (k0 =? k)%N; [discriminate|apply Hinv].
   - cbn [st_map]. rewrite find_remove. destruct (k0 =? k)%N; [discriminate|apply Hinv].
@@ -576,7 +576,7 @@ Qed.
 
 (* a negative store onto a present key is invisible to the whole future of the history *)
 Lemma negative_store_noop mx st t eps k m pk e evs :
-  negative m = true -> find k (st_map st) = Some e ->
+  negative m = true -> cp_find k (st_map st) = Some e ->
   exists o, cp_run mx st (EvStore t eps k (Some m) pk :: evs) =
             (fst (cp_run mx st evs), o :: snd (cp_run mx st evs)) /\ (o = OSkipped \/ o = OKept (msg_lifetime mx m)).
 Proof.
